@@ -49,8 +49,10 @@ def make_seeds(seed: int, count: int, max_level: int = 7) -> List[Dict[str, Any]
 
     # always present, whatever the size caps: a loop whose body is a branch (regions nested in a loop region, the latch - a block
     # with a declared back edge - is the exiting block of the tail region), and a loop nest
+    # ... a two-header loop (synthetic head fed by assignment blocks, synthetic latch) and a loop with two exits (exit branch)
     for g, stage in ((((1,), (2, 3), (4,), (4,), (1, 5), ()), "branches"), (((1,), (2, 3), (4,), (4,), (1, 5), ()), "loops"),
-                     (((1,), (2,), (2, 3), (1, 4), ()), "loops")):
+                     (((1,), (2,), (2, 3), (1, 4), ()), "loops"), (((1, 2), (2,), (1, 3), ()), "loops"),
+                     (((1,), (2, 3), (1, 4), (), ()), "loops")):
         beh = record_restructure(build_scfg(domains.graph_to_named(g)), {"g": [list(s) for s in g]}, primitives=False)
         st = beh["stages"].get(stage)
         if st is not None and not beh["exc"]:
@@ -78,6 +80,25 @@ def make_seeds(seed: int, count: int, max_level: int = 7) -> List[Dict[str, Any]
             out.append({"H": st["H"], "ng": st["ng"], "root": st["root"], "ord": st["ord"], "from": {"g": [list(s) for s in g], "stage": stage}})
             if len(out) >= count:
                 break
+    return out
+
+
+def handmade_seeds() -> List[Dict[str, Any]]:
+    """States no pipeline stage passes through but the primitives' callers can build: (a) a FLAT loop whose latch has a declared back edge
+    and whose header has two further (forward) predecessors - a target that is a back edge of one predecessor and a forward target of
+    another; (b) a synthetic head whose value table sends two values to the same target (two predecessors, three headers)."""
+    out = []
+    named = {"0": ["5", "6"], "5": ["1"], "6": ["1"], "1": ["2"], "2": ["1", "3"], "3": []}
+    blocks = {n: bb.BasicBlock(name=n, _jump_targets=tuple(ss), backedges=(("1",) if n == "2" else ())) for n, ss in named.items()}
+    from numba_scfg.core.datastructures.scfg import SCFG
+
+    st = project(SCFG(graph=blocks))
+    out.append({"H": st["H"], "ng": st["ng"], "root": st["root"], "ord": st["ord"], "from": {"named": named, "backedge": ["2", "1"]}})
+    named2 = {"0": ["a", "b"], "a": ["h1", "h2"], "b": ["h1", "h3"], "h1": ["x"], "h2": ["x"], "h3": ["x"], "x": []}
+    g2 = build_scfg(named2)
+    g2.insert_block_and_control_blocks(g2.name_gen.new_block_name(block_names.SYNTH_HEAD), ["a", "b"], ["h1", "h2", "h3"])
+    st = project(g2)
+    out.append({"H": st["H"], "ng": st["ng"], "root": st["root"], "ord": st["ord"], "from": {"named": named2, "then": "insert_block_and_control_blocks(head, [a, b], [h1, h2, h3])"}})
     return out
 
 
